@@ -18,6 +18,26 @@ for every horizon `basis`, every run list and every value type.
 * `supply_spec`, `supplyBounds_spec`, `supplyBounds_eq`  per slot `(−hi, −lo)` for EVERY basis (code after fix 375582f);
   `supply_basis2_regression` records what the old `(2, basis)` reading did at `basis = 2` (labelled, not the model)
 * `tableBounds_spec`, `load_bounds_spec`, `supply_bounds_spec`  the loaded leaf's bounds are that expansion
+* bridges to the functions `loadDevice` / the driver actually execute (last part of the file):
+  - `runToCboundsNp_eq`   `runToCboundsNp` (the `[l, h] = …` unpacking) = generic `runToCbounds` on 2-list values,
+    so `runToCbounds_entries/partition/perm` speak about what is executed; `load_cbounds_spec`: a loaded
+    leaf's `cbs` is that list
+  - `runToArrayNp_spec`   the executed `run_to_array` on homogeneous runs: row `t` = value of the run with the greatest start ≤ t
+  - `flowTerm_spec`       `flow`: per slot `Poly2DOffset` row `[a, b, 0]`, offset `c` of that run
+  - `fbrTerm_spec`        `flow_bounds_relative`: per slot `(p_l, p_h)` of that run, `(x_l, x_h)` = the device's bounds row
+  - `cfbr_spec` (+ `rangesFn_eval`, `cboundsOf_chained`)  `cumulative_flow_bounds_relative`: the function is the sum
+    over the cumulative runs of the curve `(p_l, p_h, l_i, h_i)` at the flow summed over `[start_i, start_{i+1})`
+  - `loadCostFunction_ok` the cost is the `SumFunction` of the present terms in the order flow, fbr, cfbr, peak
+    (`peak_flow` is `Fn.demand` of the exported coefficient list verbatim — nothing to expand)
+  - `load_leaf_spec`, `supply_leaf_spec`, `storage_leaf_spec`  a loaded leaf IS `mkLeaf` of those parts
+    (supply: bounds `supplyPair`, cost reflected)
+  - `storageParams_spec`, `storageParams_unknown`  the storage parameter map; any key outside it (the clipping
+    factors) ⇒ `KeyError`
+* NOT covered by a theorem (T2 + oracle only): the numpy layer on NON-homogeneous runs (`npCheck`/`npAt`
+  broadcasting quirks); the validators (`boundsOrdered`, `validCBounds`, `checkDevice`) beyond "a loaded leaf
+  passed them"; the thermal loader (a known finding: it cannot load for `basis ≥ 2`); the correspondence
+  between the Python objects (`SumFunction`, `Poly2DOffset`, `X2D`, `RangesFunction`, `DemandFunction`,
+  `ReflectedFunction`) and `Fn` (T2 fingerprints + `loader.dcost`; `Fn` itself is C01's model).
 * value semantics: every function returns new values; the inputs are immutable Lean values, so
   "inputs unchanged" is by construction here — the Python side's `deepcopy` / aliasing is checked by the oracle.
 -/
@@ -530,6 +550,405 @@ theorem loadData_length (basis : Nat) (devs : List (DevSpec α)) (ls : List (Lea
         simp only [pure, Except.pure, Except.ok.injEq] at h
         subst h
         simp [ih ls' hls']
+end
+
+/-! ## bridges: the functions `loadDevice` and the driver actually execute -/
+section
+variable {V W : Type}
+theorem insertRun_map (f : V → W) (r : Nat × V) (l : List (Nat × V)) :
+    insertRun (r.1, f r.2) (l.map (fun x => (x.1, f x.2))) = (insertRun r l).map (fun x => (x.1, f x.2)) := by
+  induction l with
+  | nil => rfl
+  | cons x xs ih =>
+    simp only [List.map_cons, insertRun]
+    split
+    · rfl
+    · simp only [List.map_cons, ih]
+
+theorem sortRuns_map (f : V → W) (l : List (Nat × V)) :
+    sortRuns (l.map (fun x => (x.1, f x.2))) = (sortRuns l).map (fun x => (x.1, f x.2)) := by
+  induction l with
+  | nil => rfl
+  | cons r rs ih =>
+    simp only [List.map_cons, sortRuns, ih]
+    exact insertRun_map f r (sortRuns rs)
+end
+
+section
+variable {α : Type} [OfNat α 0]
+
+/-- the `(l, h)` pair of a 2-list run value. -/
+def pairOf (v : RunVal α) : α × α := (v.get 0, v.get 1)
+
+theorem mapM_cbPair (l : List (Nat × RunVal α)) (h2 : ∀ r ∈ l, ∃ x y, r.2 = .vec [x, y]) :
+    l.mapM (fun r => do let p ← cbPair r.2; pure (r.1, p)) = (.ok (l.map (fun r => (r.1, pairOf r.2))) : Except LoadErr _) := by
+  induction l with
+  | nil => rfl
+  | cons r rs ih =>
+    obtain ⟨x, y, hxy⟩ := h2 r List.mem_cons_self
+    have := ih (fun q hq => h2 q (List.mem_cons_of_mem _ hq))
+    rw [List.mapM_cons, this]
+    simp [hxy, cbPair, bind, Except.bind, pure, Except.pure, pairOf, RunVal.get]
+
+/-- **bridge for cumulative bounds.** On a run dictionary whose values are 2-lists, the function the
+loader executes (`runToCboundsNp`: unpacking `[l, h] = …`) is the generic `runToCbounds` of the pairs. -/
+theorem runToCboundsNp_eq (run : Run α) (h2 : ∀ r ∈ run.runs, ∃ x y, r.2 = .vec [x, y]) :
+    runToCboundsNp run = .ok (runToCbounds run.basis (run.runs.map (fun r => (r.1, pairOf r.2)))) := by
+  have hs : ∀ r ∈ sortRuns run.runs, ∃ x y, r.2 = .vec [x, y] :=
+    fun r hr => h2 r ((sortRuns_perm run.runs).mem_iff.mp hr)
+  unfold runToCboundsNp runToCbounds
+  rw [sortRuns_map pairOf run.runs]
+  have hm := mapM_cbPair _ hs
+  simp only [bind, Except.bind, pure, Except.pure] at hm ⊢
+  rw [hm]
+
+/-- **run_to_array as executed (numpy layer), homogeneous runs, any key order.** The call succeeds;
+the template is the value of the run at 0; row `t` is the value of the run with the greatest start `≤ t`. -/
+theorem runToArrayNp_spec (run : Run α) (hd : DistinctStarts run.runs) (h0 : ∃ r ∈ run.runs, r.1 = 0)
+    (hsh : ∀ r ∈ run.runs, ∀ r' ∈ run.runs, (r.2).sameShape r'.2 = true) :
+    ∃ tmpl rows, runToArrayNp run = .ok (tmpl, rows) ∧ (∃ r ∈ run.runs, r.1 = 0 ∧ tmpl = r.2) ∧
+      ∀ t, t < run.basis → ∃ r ∈ run.runs, r.1 ≤ t ∧ (∀ r' ∈ run.runs, r'.1 ≤ t → r'.1 ≤ r.1) ∧ rows t = r.2 := by
+  obtain ⟨r0, hr0, hz, htm⟩ := template_some h0
+  obtain ⟨a, ha, hsp⟩ := runToArray_greatest run.basis (r0.2).zeroLike hd h0
+  have hnp := runToArrayNp_homogeneous run r0.2 htm (hsh r0 hr0)
+  rw [ha] at hnp
+  exact ⟨r0.2, a, by simpa [Except.map] using hnp, ⟨r0, hr0, hz, rfl⟩, hsp⟩
+
+/-- **flow cost.** A `flow` run of 3-lists `[a, b, offset]` becomes `Poly2DOffset` with, per slot,
+the quadratic `[a, b, 0]` and the offset of the run with the greatest start `≤ t`. -/
+theorem flowTerm_spec (basis : Nat) (run : Run α) (hb : run.basis = basis)
+    (hd : DistinctStarts run.runs) (h0 : ∃ r ∈ run.runs, r.1 = 0)
+    (h3 : ∀ r ∈ run.runs, ∃ a b c, r.2 = .vec [a, b, c]) :
+    ∃ cs off, flowTerm basis run = .ok (.poly cs off) ∧ ∀ t, t < basis →
+      ∃ r ∈ run.runs, r.1 ≤ t ∧ (∀ r' ∈ run.runs, r'.1 ≤ t → r'.1 ≤ r.1) ∧
+        ∃ a b c, r.2 = .vec [a, b, c] ∧ cs t = [a, b, 0] ∧ off t = c := by
+  have hsh : ∀ r ∈ run.runs, ∀ r' ∈ run.runs, (r.2).sameShape r'.2 = true := by
+    intro r hr r' hr'
+    obtain ⟨a, b, c, h⟩ := h3 r hr
+    obtain ⟨a', b', c', h'⟩ := h3 r' hr'
+    simp [h, h', RunVal.sameShape]
+  obtain ⟨tmpl, rows, hnp, ⟨r0, hr0, _, htm⟩, hsp⟩ := runToArrayNp_spec run hd h0 hsh
+  obtain ⟨a0, b0, c0, h0v⟩ := h3 r0 hr0
+  refine ⟨fun k => [(rows k).get 0, (rows k).get 1, 0], fun k => (rows k).get 2, ?_, ?_⟩
+  · unfold flowTerm
+    simp [hb, hnp, htm, h0v, bind, Except.bind, pure, Except.pure]
+  · intro t ht
+    obtain ⟨r, hr, hrt, hmax, hv⟩ := hsp t (hb ▸ ht)
+    obtain ⟨a, b, c, h⟩ := h3 r hr
+    exact ⟨r, hr, hrt, hmax, a, b, c, h, by simp [hv, h, RunVal.get], by simp [hv, h, RunVal.get]⟩
+
+/-- **flow_bounds_relative cost.** A run of 2-lists `[p_l, p_h]` becomes, per slot, the high/low
+quadratic with `(p_l, p_h)` of the run with the greatest start `≤ t` and `(x_l, x_h)` = the device's
+bounds row `t` (the `(basis, 2)` array handed in). -/
+theorem fbrTerm_spec (basis : Nat) (raw : RawBounds α) (run : Run α) (hb : run.basis = basis)
+    (hrows : raw.rows = basis) (hcols : raw.cols = 2)
+    (hd : DistinctStarts run.runs) (h0 : ∃ r ∈ run.runs, r.1 = 0)
+    (h2 : ∀ r ∈ run.runs, ∃ x y, r.2 = .vec [x, y]) :
+    ∃ pl ph, fbrTerm basis raw run = .ok (.hlq pl ph (fun k => raw.get k 0) (fun k => raw.get k 1)) ∧
+      ∀ t, t < basis → ∃ r ∈ run.runs, r.1 ≤ t ∧ (∀ r' ∈ run.runs, r'.1 ≤ t → r'.1 ≤ r.1) ∧
+        r.2 = .vec [pl t, ph t] := by
+  have hsh : ∀ r ∈ run.runs, ∀ r' ∈ run.runs, (r.2).sameShape r'.2 = true := by
+    intro r hr r' hr'
+    obtain ⟨a, b, h⟩ := h2 r hr
+    obtain ⟨a', b', h'⟩ := h2 r' hr'
+    simp [h, h', RunVal.sameShape]
+  obtain ⟨tmpl, rows, hnp, ⟨r0, hr0, _, htm⟩, hsp⟩ := runToArrayNp_spec run hd h0 hsh
+  obtain ⟨a0, b0, h0v⟩ := h2 r0 hr0
+  refine ⟨fun k => (rows k).get 0, fun k => (rows k).get 1, ?_, ?_⟩
+  · unfold fbrTerm
+    simp [hb, hnp, htm, h0v, hrows, hcols, bind, Except.bind, pure, Except.pure]
+  · intro t ht
+    obtain ⟨r, hr, hrt, hmax, hv⟩ := hsp t (hb ▸ ht)
+    obtain ⟨a, b, h⟩ := h2 r hr
+    exact ⟨r, hr, hrt, hmax, by simp [hv, h, RunVal.get]⟩
+end
+
+section
+variable {α : Type} [OfNat α 0]
+
+/-- the terms `load_cost_function` collects, in its fixed order flow, flow_bounds_relative,
+cumulative_flow_bounds_relative, peak_flow (each present or not). -/
+def costTerms (f1 f2 : Option (Fn α)) (c : Costs α) (cbs : Option (List (CBound α))) : List (Fn α) :=
+  f1.toList ++ f2.toList ++ (c.cfbr.map (fun p => rangesFn p.1 p.2 (cbs.getD []))).toList ++
+    (c.peak.map Fn.demand).toList
+
+theorem optMapM_ok {β γ : Type} {o : Option β} {f : β → Except LoadErr γ} {r : Option γ}
+    (h : o.mapM f = .ok r) : (o = none ∧ r = none) ∨ ∃ x y, o = some x ∧ f x = .ok y ∧ r = some y := by
+  cases o with
+  | none => left; simp [Option.mapM, pure, Except.pure] at h; exact ⟨rfl, h.symm⟩
+  | some x =>
+    right
+    cases hf : f x with
+    | error e => simp [Option.mapM, hf, bind, Except.bind, Functor.map, Except.map] at h
+    | ok y =>
+      simp [Option.mapM, hf, bind, Except.bind, Functor.map, Except.map, pure, Except.pure] at h
+      exact ⟨x, y, rfl, hf, h.symm⟩
+
+theorem loadCostFunction_ok (basis : Nat) (c : Costs α) (raw : RawBounds α) (cbs : Option (List (CBound α)))
+    (hcf : c.cumulativeFlow = false) (f1 f2 : Option (Fn α))
+    (h1 : c.flow.mapM (flowTerm basis) = .ok f1) (h2 : c.fbr.mapM (fbrTerm basis raw) = .ok f2)
+    (h3 : c.cfbr = none ∨ ∃ c0 rest, cbs = some (c0 :: rest) ∧ c0.s = 0) :
+    loadCostFunction basis (some c) raw cbs =
+      .ok (if (costTerms f1 f2 c cbs).isEmpty then none else some (sumFn (costTerms f1 f2 c cbs))) := by
+  rcases optMapM_ok h1 with ⟨hfl, rfl⟩ | ⟨run1, g1, hfl, hg1, rfl⟩ <;>
+  rcases optMapM_ok h2 with ⟨hfb, rfl⟩ | ⟨run2, g2, hfb, hg2, rfl⟩ <;>
+  rcases h3 with hcb | ⟨c0, rest, rfl, hs0⟩ <;>
+  cases hcb' : c.cfbr <;> cases hpk : c.peak <;>
+  simp_all [loadCostFunction, costTerms, bind, Except.bind, pure, Except.pure]
+end
+
+section
+variable {α : Type}
+/-- consecutive ranges: the first starts at `s0`, each ends where the next starts, the last ends at
+`n`, none is reversed. -/
+def Chained : Nat → Nat → List (CBound α) → Prop
+  | _, _, [] => False
+  | s0, n, [c] => c.s = s0 ∧ c.s ≤ c.e ∧ c.e = n
+  | s0, n, c :: c' :: rest => c.s = s0 ∧ c.s ≤ c.e ∧ Chained c.e n (c' :: rest)
+
+theorem cboundsOf_chained (basis : Nat) {l : List (Nat × (α × α))} (hs : Sorted l)
+    (hb : ∀ r ∈ l, r.1 ≤ basis) : ∀ r rest, l = r :: rest → Chained r.1 basis (cboundsOf basis l) := by
+  induction l with
+  | nil => intro r rest h; cases h
+  | cons x xs ih =>
+    intro r rest h
+    cases h
+    have hx := List.pairwise_cons.mp hs
+    cases xs with
+    | nil => exact ⟨rfl, hb x List.mem_cons_self, rfl⟩
+    | cons r' rest' =>
+      simp only [cboundsOf]
+      have h1 := ih hx.2 (fun q hq => hb q (List.mem_cons_of_mem _ hq)) r' rest' rfl
+      cases hc : cboundsOf basis (r' :: rest') with
+      | nil =>
+        have := cboundsOf_length basis (r' :: rest')
+        simp [hc] at this
+      | cons c cs =>
+        rw [hc] at h1
+        exact ⟨rfl, Nat.le_of_lt (hx.1 r' List.mem_cons_self), h1⟩
+end
+
+/-- what a chain of ranges denotes: the sum over the ranges of the curve at the range's flow sum. -/
+noncomputable def rangesSum (pl ph : ℝ) (cbs : List (CBound ℝ)) (x : ℕ → ℝ) : ℝ :=
+  (cbs.map (fun c => hlqCost pl ph c.l c.h (sumRange c.s c.e x))).sum
+
+theorem rangesFn_eval (pl ph : ℝ) (x : ℕ → ℝ) : ∀ (cbs : List (CBound ℝ)) (s0 n : ℕ), Chained s0 n cbs →
+    (rangesFn pl ph cbs).eval (n - s0) (fun i => x (s0 + i)) = rangesSum pl ph cbs x
+  | [], _, _, h => by simp [Chained] at h
+  | [c], s0, n, h => by
+    obtain ⟨h1, _, h3⟩ := h
+    subst h1 h3
+    simp [rangesFn, Fn.eval, rangesSum, sumRange]
+  | c :: c' :: rest, s0, n, h => by
+    obtain ⟨h1, h2, h3⟩ := h
+    subst h1
+    have ih := rangesFn_eval pl ph x (c' :: rest) c.e n h3
+    have hle : c.e ≤ n := by
+      clear ih
+      induction rest generalizing c c' with
+      | nil => obtain ⟨a, b, d⟩ := h3; omega
+      | cons c'' rest ih2 =>
+        obtain ⟨a, b, d⟩ := h3
+        have := ih2 c' c'' (by omega) d
+        omega
+    simp only [rangesFn, Fn.eval, rangesSum, List.map_cons, List.sum_cons] at ih ⊢
+    have e1 : n - c.s - (c.e - c.s) = n - c.e := by omega
+    have e2 : (fun i => x (c.s + (c.e - c.s + i))) = fun i => x (c.e + i) := by
+      funext i; congr 1; omega
+    rw [e1, e2, ih]
+    simp [sumRange]
+
+/-- **cumulative_flow_bounds_relative cost.** For cumulative runs sorted by start, the first at 0, all
+starts `< basis`, the `RangesFunction` built from the loaded cbounds evaluates, on any flow `x` of
+length `basis`, to the sum over the cumulative runs of the curve `(p_l, p_h, l_i, h_i)` at the flow
+summed over exactly the slots `[start_i, start_{i+1})` (the last up to `basis`). -/
+theorem cfbr_spec (basis : ℕ) (pl ph : ℝ) {runs : List (ℕ × (ℝ × ℝ))} (hs : Sorted runs)
+    (h0 : ∃ v rest, runs = (0, v) :: rest) (hb : ∀ r ∈ runs, r.1 < basis) (x : ℕ → ℝ) :
+    (rangesFn pl ph (runToCbounds basis runs)).eval basis x = rangesSum pl ph (runToCbounds basis runs) x := by
+  rw [runToCbounds, sortRuns_of_sorted hs]
+  obtain ⟨v, rest, rfl⟩ := h0
+  have := rangesFn_eval pl ph x _ 0 basis
+    (cboundsOf_chained basis hs (fun r hr => Nat.le_of_lt (hb r hr)) (0, v) rest rfl)
+  simpa using this
+
+section
+variable {α : Type} [Add α] [Sub α] [Mul α] [Div α] [Neg α]
+  [OfNat α 0] [OfNat α 1] [OfNat α 2]
+  [LT α] [LE α] [DecidableEq α] [DecidableLT α] [DecidableLE α]
+
+theorem load_leaf_spec (basis : Nat) (bounds : Run α) (cb : Option (Run α)) (costs : Option (Costs α))
+    (leaf : Leaf α) (h : loadDevice basis (.load bounds cb costs) = .ok leaf) :
+    ∃ b cbs f, tableBounds basis bounds = .ok b ∧ loadCbounds basis cb = .ok cbs ∧
+      loadCostFunction basis costs ⟨basis, 2, fun t c => if c = 0 then b.1 t else b.2 t⟩ cbs = .ok f ∧
+      leaf = mkLeaf basis b (cbs.getD []) (.adevice (f.getD .null)) := by
+  simp only [loadDevice, bind, Except.bind] at h
+  cases hb : tableBounds basis bounds with
+  | error e => simp [hb] at h
+  | ok b =>
+    simp only [hb] at h
+    cases hc : loadCbounds basis cb with
+    | error e => simp [hc] at h
+    | ok cbs =>
+      simp only [hc] at h
+      cases hf : loadCostFunction basis costs ⟨basis, 2, fun t c => if c = 0 then b.1 t else b.2 t⟩ cbs with
+      | error e => simp [hf] at h
+      | ok f =>
+        simp only [hf] at h
+        refine ⟨b, cbs, f, rfl, rfl, hf, ?_⟩
+        split at h
+        · simp at h
+        · simp only [pure, Except.pure, Except.ok.injEq] at h
+          exact h.symm
+
+theorem supply_leaf_spec (basis : Nat) (bounds : Run α) (cb : Option (Run α)) (costs : Option (Costs α))
+    (leaf : Leaf α) (h : loadDevice basis (.supply bounds cb costs) = .ok leaf) :
+    ∃ b cbs f, tableBounds basis bounds = .ok b ∧ loadCbounds basis cb = .ok cbs ∧
+      loadCostFunction basis costs ⟨basis, 2, fun t c => if c = 0 then (supplyPair b.1 b.2).1 t else (supplyPair b.1 b.2).2 t⟩ cbs = .ok f ∧
+      leaf = mkLeaf basis (supplyPair b.1 b.2) (cbs.getD [])
+        (.adevice (match f with | some g => .reflect g | none => .null)) := by
+  simp only [loadDevice, bind, Except.bind] at h
+  cases hb : tableBounds basis bounds with
+  | error e => simp [hb] at h
+  | ok b =>
+    simp only [hb] at h
+    cases hc : loadCbounds basis cb with
+    | error e => simp [hc] at h
+    | ok cbs =>
+      simp only [hc] at h
+      cases hf : loadCostFunction basis costs ⟨basis, 2, fun t c => if c = 0 then (supplyPair b.1 b.2).1 t else (supplyPair b.1 b.2).2 t⟩ cbs with
+      | error e => simp [hf] at h
+      | ok f =>
+        simp only [hf] at h
+        refine ⟨b, cbs, f, rfl, rfl, hf, ?_⟩
+        rcases supplyBounds_eq basis b.1 b.2 with hq | hq
+        · simp only [hq] at h
+          split at h
+          · simp at h
+          · simp only [pure, Except.pure, Except.ok.injEq] at h
+            exact h.symm
+        · simp [hq] at h
+
+/-- the storage field a builder key is mapped to (`parameter_map`, builder_loader.py:65-76). -/
+def sField (q : SParams α) : String → Option α
+  | "capacity" => some q.capacity
+  | "efficiencyFactor" => some q.efficiency
+  | "reserveRatio" => some q.reserve
+  | "startingRatio" => some q.start
+  | "fastChargeCostFactor" => some q.c1
+  | "flipFlopCostFactor" => some q.c2
+  | "deepDischargeCostFactor" => some q.c3
+  | "deepDepthRatio" => some q.damageDepth
+  | _ => none
+
+def storageKeys : List String := ["capacity", "efficiencyFactor", "reserveRatio", "startingRatio",
+  "fastChargeCostFactor", "flipFlopCostFactor", "deepDischargeCostFactor", "deepDepthRatio"]
+
+theorem storageSet_spec (q : SParams α) (k : String) (v : α) (hk : k ∈ storageKeys) :
+    ∃ q', storageSet q k v = .ok q' ∧ sField q' k = some v ∧ q'.sustainment = q.sustainment ∧
+      ∀ k', k' ≠ k → sField q' k' = sField q k' := by
+  simp only [storageKeys, List.mem_cons, List.not_mem_nil, or_false] at hk
+  rcases hk with rfl | rfl | rfl | rfl | rfl | rfl | rfl | rfl <;>
+    refine ⟨_, rfl, rfl, rfl, ?_⟩ <;> intro k' hk' <;> simp only [sField] <;> split <;> simp_all
+
+theorem storageSet_unknown (q : SParams α) (k : String) (v : α) (hk : k ∉ storageKeys) :
+    storageSet q k v = .error .keyError := by
+  simp only [storageSet]
+  split <;> first | rfl | simp_all [storageKeys]
+
+/-- **storage parameter map.** With distinct keys, all of them in `parameter_map`, the call succeeds;
+every exported value lands in the field the map names, every other mapped field and `sustainment`
+keep their previous (default) value. -/
+theorem storageParams_spec : ∀ (ps : List (String × α)) (q : SParams α),
+    (ps.map (·.1)).Nodup → (∀ kv ∈ ps, kv.1 ∈ storageKeys) →
+    ∃ q', storageParams ps q = .ok q' ∧ (∀ kv ∈ ps, sField q' kv.1 = some kv.2) ∧
+      (∀ k, k ∉ ps.map (·.1) → sField q' k = sField q k) ∧ q'.sustainment = q.sustainment
+  | [], q, _, _ => ⟨q, rfl, by simp, by simp, rfl⟩
+  | (k, v) :: rest, q, hnd, hk => by
+    obtain ⟨q1, hq1, hv, hsus, hoth⟩ := storageSet_spec q k v (hk (k, v) List.mem_cons_self)
+    have hnd' := List.nodup_cons.mp hnd
+    obtain ⟨q', hq', hall, hkeep, hsus'⟩ := storageParams_spec rest q1 hnd'.2
+      (fun kv hkv => hk kv (List.mem_cons_of_mem _ hkv))
+    refine ⟨q', by simp [storageParams, hq1, hq', bind, Except.bind], ?_, ?_, by rw [hsus', hsus]⟩
+    · intro kv hkv
+      rcases List.mem_cons.mp hkv with rfl | hkv
+      · rw [hkeep _ hnd'.1]; exact hv
+      · exact hall kv hkv
+    · intro k' hk'
+      simp only [List.map_cons, List.mem_cons, not_or] at hk'
+      rw [hkeep k' hk'.2, hoth k' hk'.1]
+
+/-- any key outside `parameter_map` — in particular the two clipping-factor keys — makes the whole
+load raise `KeyError` (known finding: storage with clipping factors cannot load). -/
+theorem storageParams_unknown : ∀ (ps : List (String × α)) (q : SParams α),
+    (∃ kv ∈ ps, kv.1 ∉ storageKeys) → storageParams ps q = .error .keyError
+  | [], _, h => by simp at h
+  | (k, v) :: rest, q, h => by
+    by_cases hk : k ∈ storageKeys
+    · obtain ⟨q1, hq1, _⟩ := storageSet_spec q k v hk
+      have : ∃ kv ∈ rest, kv.1 ∉ storageKeys := by
+        obtain ⟨kv, hkv, hn⟩ := h
+        rcases List.mem_cons.mp hkv with rfl | hkv
+        · exact absurd hk hn
+        · exact ⟨kv, hkv, hn⟩
+      simp [storageParams, hq1, storageParams_unknown rest q1 this, bind, Except.bind]
+    · simp [storageParams, storageSet_unknown q k v hk, bind, Except.bind]
+
+example : "chargeRateClippingFactor" ∉ storageKeys ∧ "disChargeRateClippingFactor" ∉ storageKeys := by decide
+
+theorem storage_leaf_spec (basis : Nat) (bounds : Run α) (ps : Option (List (String × α)))
+    (leaf : Leaf α) (h : loadDevice basis (.storage bounds ps) = .ok leaf) :
+    ∃ b l q, tableBounds basis bounds = .ok b ∧ ps = some l ∧ storageParams l sDefaults = .ok q ∧
+      leaf = mkLeaf basis b [] (.sdevice q) := by
+  simp only [loadDevice, bind, Except.bind] at h
+  cases hb : tableBounds basis bounds with
+  | error e => simp [hb] at h
+  | ok b =>
+    simp only [hb] at h
+    cases ps with
+    | none => simp at h
+    | some l =>
+      simp only at h
+      cases hq : storageParams l sDefaults with
+      | error e => simp [hq] at h
+      | ok q =>
+        simp only [hq] at h
+        refine ⟨b, l, q, rfl, rfl, hq, ?_⟩
+        split at h
+        · simp at h
+        · simp only [pure, Except.pure, Except.ok.injEq] at h
+          exact h.symm
+end
+
+section
+variable {α : Type} [Add α] [Sub α] [Mul α] [Div α] [Neg α]
+  [OfNat α 0] [OfNat α 1] [OfNat α 2]
+  [LT α] [LE α] [DecidableEq α] [DecidableLT α] [DecidableLE α]
+
+/-- **cumulative bounds of a loaded leaf.** A loaded `load` device whose `cumulative_bounds` run has
+2-list values carries exactly `runToCbounds` of those pairs (so `runToCbounds_entries/partition/perm`
+apply to the leaf's `cbs`); without the key it carries none. -/
+theorem load_cbounds_spec (basis : Nat) (bounds : Run α) (cb : Option (Run α)) (costs : Option (Costs α))
+    (leaf : Leaf α) (h : loadDevice basis (.load bounds cb costs) = .ok leaf) :
+    (cb = none → leaf.cbs = []) ∧
+    (∀ run, cb = some run → (∀ r ∈ run.runs, ∃ x y, r.2 = .vec [x, y]) →
+      leaf.cbs = runToCbounds basis (run.runs.map (fun r => (r.1, pairOf r.2)))) := by
+  obtain ⟨b, cbs, f, _, hc, _, rfl⟩ := load_leaf_spec basis bounds cb costs leaf h
+  constructor
+  · intro hn
+    subst hn
+    simp [loadCbounds, pure, Except.pure] at hc
+    subst hc
+    rfl
+  · intro run hr h2
+    subst hr
+    simp only [loadCbounds, bind, Except.bind] at hc
+    split at hc
+    · simp [throw, throwThe, MonadExceptOf.throw] at hc
+    · rename_i hbasis
+      simp only [runToCboundsNp_eq run h2, pure, Except.pure, Except.ok.injEq] at hc
+      subst hc
+      have : run.basis = basis := by simpa using hbasis
+      simp [mkLeaf, this]
 end
 
 end DK.Loader
